@@ -32,7 +32,7 @@
 
 //! Builder for item definition evaluators.
 
-use crate::errors::{err_empty_feel_name, err_unsupported_feel_type};
+use crate::errors::{err_cyclic_item_definitions, err_empty_feel_name, err_unsupported_feel_type};
 use dmntk_common::Result;
 use dmntk_feel::context::FeelContext;
 use dmntk_feel::values::{Value, Values};
@@ -52,6 +52,7 @@ pub struct ItemDefinitionEvaluator {
 impl ItemDefinitionEvaluator {
   /// Creates new item definition evaluator.
   pub fn build(&mut self, definitions: &Definitions) -> Result<()> {
+    check_references_acyclic(definitions)?;
     for item_definition in definitions.item_definitions() {
       let evaluator = build_item_definition_evaluator(item_definition)?;
       let type_ref = item_definition.name().to_string();
@@ -67,6 +68,27 @@ impl ItemDefinitionEvaluator {
   pub fn get(&self, type_ref: &str) -> Option<&ItemDefinitionEvaluatorFn> {
     self.evaluators.get(type_ref)
   }
+}
+
+/// Checks that no item definition is just a reference (directly or through other references) to itself,
+/// such a chain is followed without consuming any part of the evaluated value and would never end.
+fn check_references_acyclic(definitions: &Definitions) -> Result<()> {
+  for item_definition in definitions.item_definitions() {
+    let mut visited = vec![item_definition.name().to_string()];
+    let mut current = item_definition;
+    while let ItemDefinitionType::ReferencedType(type_ref) = super::item_definition_type(current)? {
+      if visited.contains(&type_ref) {
+        return Err(err_cyclic_item_definitions(item_definition.name()));
+      }
+      if let Some(referenced) = definitions.item_definition_by_name(&type_ref) {
+        visited.push(type_ref);
+        current = referenced;
+      } else {
+        break;
+      }
+    }
+  }
+  Ok(())
 }
 
 ///
